@@ -119,8 +119,10 @@ func c08(k int) {
 	var after []rune
 	omitLast := site.tail == "" && nd.Choice(2) == 1 // the last delimiter line is missing
 	for i, b := range bodies {
-		after = append(after, b...)
-		after = append(after, '\n')
+		if k > 0 {
+			after = append(after, b...)
+			after = append(after, '\n')
+		}
 		if omitLast && i == len(bodies)-1 {
 			break
 		}
@@ -179,6 +181,9 @@ func c08(k int) {
 	}
 }
 
+// C08_K0: empty here-documents (the delimiter line follows the command line).
+func C08_K0() { c08(0) }
+func C08_K1() { c08(1) }
 func C08_K2() { c08(2) }
 func C08_K3() { c08(3) }
 func C08_K4() { c08(4) }
